@@ -26,6 +26,9 @@ var c10cProgs = []struct{ Name, Src string }{
 	{"bindings", `var was = _.bindings.o.x; _.ctx.Value("tick"); _.bindings.o.x = _.bindings.id; _.bindings.o.l.push(_.bindings.id); _.ctx.Value("tick"); return {was: was, now: _.bindings.o.x, l: _.bindings.o.l};`},
 	{"props", `var was = _.props.cfg.x; _.ctx.Value("tick"); _.props.cfg.x = _.bindings.id; _.props.list.push(_.bindings.id); _.ctx.Value("tick"); return {was: was, now: _.props.cfg.x, l: _.props.list};`},
 	{"builtin", `var was = JSON.stringify({a: 1}); _.ctx.Value("tick"); JSON.stringify = function() { return "by" + _.bindings.id; }; _.ctx.Value("tick"); return {was: was, now: JSON.stringify({a: 1})};`},
+	// the environment's own functions (Extended mode, as the hosts configure it), with data of the caller's own
+	{"match", `var id = _.bindings.id; _.ctx.Value("tick"); var r = _.match({"who": "?w", "n": id}, {"who": "t" + id, "n": id, "extra": [id, id]}, {"?seen": id}); _.ctx.Value("tick"); var r2 = _.match({"k": ["?e"]}, {"k": [id]}, {}); _.ctx.Value("tick"); return {r: r, r2: r2};`},
+	{"out-result", `var id = _.bindings.id; var r = _.out({from: id, l: [id]}); _.ctx.Value("tick"); r.l.push("edited by " + id); _.ctx.Value("tick"); var r2 = _.out({from: id, l: [id]}); return {r: r, r2: r2};`},
 	{"throwing", `g2 = _.bindings.id; _.ctx.Value("tick"); _.out({lost: 1}); if (_.bindings.id == 1) { throw "boom"; } _.ctx.Value("tick"); return {now: g2};`},
 }
 
@@ -102,6 +105,7 @@ func runC10c(interp *ecmascript.Interpreter, compiled interface{}, src string, n
 func C10c(c *vh.Ctx) {
 	race := os.Getenv("VERIF_RACE") == "1"
 	interp := ecmascript.NewInterpreter()
+	interp.Extended = true
 	check := func(name, src string, compiled interface{}, n int, x *sched.Exec, r *c10cRun, damage []string) [][2]string {
 		var out [][2]string
 		for _, d := range damage {
@@ -136,7 +140,7 @@ func C10c(c *vh.Ctx) {
 		}
 		return
 	}
-	c.Rule("concurrent half: each self-observing script (observe, yield, pollute with the thread's identity - global / prototype / environment member / nested bindings / nested props / built-in / pollute-then-throw -, yield, observe) compiled once and executed by 2 threads (all interleavings) and 3 threads (bounded deviations) sharing the compiled program, the interpreter and the props object; each result must equal the solo result; caller objects snapshot-equal; race pass under ThreadSanitizer.")
+	c.Rule("concurrent half: each self-observing script (observe, yield, pollute with the thread's identity - global / prototype / environment member / nested bindings / nested props / built-in / pollute-then-throw / calls of _.match and edits of what _.out returned, on an Extended interpreter -, yield, observe) compiled once and executed by 2 threads (all interleavings) and 3 threads (bounded deviations) sharing the compiled program, the interpreter and the props object; each result must equal the solo result; caller objects snapshot-equal; race pass under ThreadSanitizer.")
 	for pi, p := range c10cProgs {
 		compiled, err := interp.Compile(context.Background(), p.Src)
 		if err != nil {
